@@ -18,10 +18,10 @@ def encode(obj):
     return json.dumps(preprocess(encoded))
 
 
-def decode(cache, records_per_chunk):
+def decode(cache, records_per_chunk, mapper=None):
     partially_decoded = json.loads(cache, object_hook=postprocess)
 
-    return decode_hierarchy(partially_decoded, records_per_chunk=records_per_chunk)
+    return decode_hierarchy(partially_decoded, records_per_chunk=records_per_chunk, mapper=mapper)
 
 
 def read_cache(mapper, path, records_per_chunk):
@@ -29,10 +29,12 @@ def read_cache(mapper, path, records_per_chunk):
     local = local_cache_location(mapper.root, path)
 
     if local.is_file():
-        return decode(local.read_text(), records_per_chunk=records_per_chunk)
+        return decode(local.read_text(), records_per_chunk=records_per_chunk, mapper=mapper)
 
     if remote in mapper:
-        return decode(mapper[remote].decode(), records_per_chunk=records_per_chunk)
+        return decode(
+            mapper[remote].decode(), records_per_chunk=records_per_chunk, mapper=mapper
+        )
 
     raise CachingError(f"no cache found for {path}")
 
